@@ -134,3 +134,35 @@ func VF_C15_Clock() {
 		vf.Assert(vf.All(a.Lamport == l0, b.Lamport == l0, a.CUID == id.CUID), "C15 batch elements share the operation's clock and client")
 	}
 }
+
+// VF_C15_CompareAlphabet (C15, C02): the tie-break of equal clocks is the
+// byte-wise order of the client identifiers.  Identifiers are 16 characters of
+// an alphabet that mixes letter cases, digits and punctuation, so any
+// normalisation of the identifiers (case folding, trimming, collation) changes
+// the order or merges distinct clients.  Concrete pairs built from one
+// character of each class at the first, a middle and the last position; era and
+// clock symbolic and equal.
+func VF_C15_CompareAlphabet() {
+	classes := []byte{'-', '0', '9', 'A', 'Z', '_', 'a', 'z', ' ', '~'}
+	pos := []int{0, 7, 15}[vf.Choice("position", 3)]
+	ca, cb := classes[vf.Choice("a.class", len(classes))], classes[vf.Choice("b.class", len(classes))]
+	mk := func(c byte) string {
+		b := []byte("mmmmmmmmmmmmmmmm")
+		b[pos] = c
+		return string(b)
+	}
+	era, lam := vf.U32("era"), vf.U64("lamport")
+	x := &Timestamp{Era: era, Lamport: lam, CUID: mk(ca), Delimiter: 0}
+	y := &Timestamp{Era: era, Lamport: lam, CUID: mk(cb), Delimiter: 0}
+	ox := &OperationID{Era: era, Lamport: lam, CUID: mk(ca)}
+	oy := &OperationID{Era: era, Lamport: lam, CUID: mk(cb)}
+	want := 0
+	if ca < cb {
+		want = -1
+	} else if ca > cb {
+		want = 1
+	}
+	vf.Reach("compared")
+	vf.Assert(sgn(x.Compare(y)) == want, "C15 equal clocks are ordered by the byte-wise order of the client identifiers (timestamps)")
+	vf.Assert(sgn(ox.Compare(oy)) == want, "C15 equal clocks are ordered by the byte-wise order of the client identifiers (operation ids)")
+}
